@@ -65,6 +65,10 @@ def main(argv=None):
   nshards = args.shards or meta.get("shards", {}).get(tier,
                                                      4 if tier == "quick" else 16)
   soft_s = meta.get("soft_s", {}).get(tier, 45 if tier == "quick" else 420)
+  if tier == "quick":
+    # quick budgets are fixed case counts; the soft limit (CPU seconds per
+    # shard) is only a safety net and must not bite on a merely slow machine
+    soft_s = max(3 * soft_s, 90)
   hard_s = meta.get("hard_s", {}).get(tier, 900 if tier == "quick" else 3600)
   if args.replay:
     nshards = 1
